@@ -231,7 +231,7 @@ var C15 = register(&HistProp{ID: "C15",
 	},
 	Next: func(g *sim.G, i int) *sim.Op {
 		return Mix{Send: 3, Dep: 3, Recv: 3, Replay: 1, Replace: 2, RepDep: 2, Admin: 10, Ledger: 1, Multi: 1,
-			DepValid: 75, RecvBroken: 35, ReplaceValid: 70, AdminHolder: 75, FaultPct: 4, Rollback: 4}.next(g)
+			DepValid: 75, RecvBroken: 35, ReplaceValid: 70, AdminHolder: 75, FaultPct: 4, Rollback: 4, AttProbe: 3}.next(g)
 	},
 	MinOps: 5, MaxOps: 35, New: func() Checker { return &c15{} }, Require: c15required()})
 
@@ -591,7 +591,7 @@ var C19 = register(&HistProp{ID: "C19",
 		return sim.DrawGenesis(t, sim.GenOpts{ManyEntries: true, UsedInGen: true, MaxAtt: 5, ManyUsed: true})
 	},
 	Next: func(g *sim.G, i int) *sim.Op {
-		return Mix{Admin: 14, Recv: 3, Send: 1, Dep: 1, DepValid: 80, RecvBroken: 15, AdminHolder: 90, Rollback: 6, Restart: 2,
+		return Mix{Admin: 14, Recv: 3, Send: 1, Dep: 1, DepValid: 80, RecvBroken: 15, AdminHolder: 90, Rollback: 6, AttProbe: 3, Restart: 2,
 			AdminTypes: []string{"EnableAttester", "DisableAttester", "LinkTokenPair", "LinkTokenPair", "UnlinkTokenPair", "UnlinkTokenPair", "AddRemoteTokenMessenger", "RemoveRemoteTokenMessenger",
 				"SetMaxBurnAmountPerMessage", "SetMaxBurnAmountPerMessage", "UpdateSignatureThreshold", "UpdateMaxMessageBodySize", "PauseBurningAndMinting", "UnpauseBurningAndMinting", "UpdatePauser"}}.next(g)
 	},
